@@ -1920,6 +1920,23 @@ def sec_simsweep(ctx, rng, case):
             mm, ms = res.measurements, single.measurements
             ctx.check(list(mm) == ["flag"] and mm["flag"].tolist() == [flag_bit] and ms["flag"].tolist() == [flag_bit], "simulate_sweep-measurements",
                       "C10:simulate_sweep:measurements", "measurements %r / %r, expected flag=%d" % (mm, ms, flag_bit), **wit)
+    # expectation values over the same sweep: one list per assignment, observables in the order given
+    if not with_flag:
+        obs = [cirq.Z(q_) for q_ in qs] + ([cirq.X(qs[0]) * cirq.Z(qs[-1])] if nq >= 2 else [cirq.X(qs[0]) + 0.5 * cirq.Z(qs[0])])
+        evs = sim.simulate_expectation_values_sweep(C, obs, sweep, qubit_order=order, initial_state=init_full)
+        okev = len(evs) == len(envs)
+        worst = 0.0
+        for i, row in enumerate(evs if okev else []):
+            psi_ = refs[i]
+            mats = [L.embed(np.diag([1.0, -1.0]).astype(complex), [j], dims) for j in range(nq)]
+            xmat = np.array([[0, 1], [1, 0]], dtype=complex)
+            mats.append(L.embed(xmat, [0], dims) @ mats[-1] if nq >= 2 else xmat + 0.5 * np.diag([1.0, -1.0]))
+            want_ev = [complex(np.vdot(psi_, m_ @ psi_)) for m_ in mats]
+            okev = okev and len(row) == len(want_ev)
+            if okev:
+                worst = max(worst, max(abs(complex(a_) - b_) for a_, b_ in zip(row, want_ev)))
+        ctx.check(okev and worst <= 10 * tol_ref, "simulate_sweep==numpy", "C10:simulate_expectation_values_sweep",
+                  lambda: "expectation values over the sweep deviate from <psi|O|psi> of the numpy states by %.3g" % worst, **wit)
     ctx.distinct(("simsweep", tuple(tuple(m.show() for m in ops) for ops in moments), len(envs), first_param), nontrivial=len(envs) >= 2)
     ctx.sample({"circuit": wit["circuit"], "first_parameterized_moment": first_param, "points": envs[:3]})
 
